@@ -463,6 +463,9 @@ func (w *World) execInstr(fr *Frame, st *State, ins ssa.Instruction) {
 		w.execUnOp(fr, st, ins)
 	case *ssa.BinOp:
 		x, y := w.val(fr, st, ins.X), w.val(fr, st, ins.Y)
+		if (ins.Op == token.QUO || ins.Op == token.REM) && y.T.Sort == SInt {
+			w.panicPoint(fr, st, eq(y.T, intLit(0)), "integer division by zero", ins.Pos())
+		}
 		fr.vals[ins] = &Val{T: w.sc.define(fr.fn.Name()+"."+ins.Name(), w.binop(st, ins.Op, x, y, ins.X.Type())), Typ: ins.Type()}
 	case *ssa.FieldAddr:
 		x := w.val(fr, st, ins.X)
@@ -518,6 +521,7 @@ func (w *World) execInstr(fr *Frame, st *State, ins ssa.Instruction) {
 		et := ins.Type().Underlying().(*types.Slice).Elem()
 		r := w.newRef(st)
 		ln, cp := w.term(fr, st, ins.Len), w.term(fr, st, ins.Cap)
+		w.panicPoint(fr, st, lt(ln, intLit(0)), "make with negative length", ins.Pos())
 		k := w.elemsKeyT(et)
 		es := arraySort(SInt, w.sortOf(et))
 		w.hset(st, k, store(w.hget(st, k), r, Term{fmt.Sprintf("((as const %s) %s)", es, w.zero(et).S), es}))
@@ -1119,6 +1123,10 @@ func (w *World) execConvert(fr *Frame, st *State, ins *ssa.Convert) {
 		fr.vals[ins] = &Val{T: w.sc.define("str", mk(SString, "stringOf", sel(w.hget(st, k), sarr(x.T)), soff(x.T), slen(x.T))), Typ: ins.Type()}
 	case fs == SInt && ts == SReal:
 		fr.vals[ins] = &Val{T: mk(SReal, "to_real", x.T), Typ: ins.Type()}
+		if _, ok := w.specs.Fns["infPos"]; ok {
+			// a converted integer is a finite float
+			w.sc.assume(and(lt(Term{"infNeg", SReal}, fr.vals[ins].T), lt(fr.vals[ins].T, Term{"infPos", SReal})))
+		}
 	case fs == SReal && ts == SInt:
 		fr.vals[ins] = &Val{T: mk(SInt, "to_int", x.T), Typ: ins.Type()}
 		w.assumption("float to integer conversion is floor (truncation toward zero not modelled)")
@@ -1184,7 +1192,7 @@ func (w *World) execTypeAssert(fr *Frame, st *State, ins *ssa.TypeAssert) {
 func (w *World) panicPoint(fr *Frame, st *State, cond Term, what string, pos token.Pos) {
 	if fr.top && fr.contract != nil && fr.contract.Opts["safety"] == "on" {
 		w.callOrd["panic:"+what]++
-		w.oblige("nopanic", fmt.Sprintf("nopanic.%s.%d", strings.ReplaceAll(what, " ", "-"), w.callOrd["panic:"+what]), st.cond, not(cond), false, fr.contract.Props)
+		w.oblige("nopanic", fmt.Sprintf("nopanic.%s.%d", strings.ReplaceAll(what, " ", "-"), w.callOrd["panic:"+what]), st.cond, not(cond), true, fr.contract.Props)
 		return
 	}
 	w.assumption("implicit run-time panics (nil dereference, index, failed type assertion) do not occur in functions without 'opt safety on'")
